@@ -48,18 +48,60 @@ def generate(chk, sd, base, subs, name, simulate=None, depth=None, seed=None):
     return out
 
 
-def replay(sd, binary, behs, tag, env=None, timeout=2400):
+def replay_one(sd, binary, behs, tag, env=None, timeout=7200):
     bf = vf.write_ndjson(os.path.join(sd, "beh_%s.ndjson" % tag), behs)
     out = os.path.join(sd, "replay_%s.json" % tag)
     e = {"VERIF_IN": bf, "VERIF_OUT": out, "VERIF_TMP": sd}
     e.update(env or {})
     p = vf.run([binary, "-test.run", "^%s$" % TEST, "-test.timeout", "%ds" % timeout], cwd=sd, env=vf.goenv(e), timeout=timeout + 120)
     if p.returncode != 0 or not os.path.exists(out):
-        raise vf.NoVerdict("replay harness failed (%s, rc=%d)\n%s\n%s" % (tag, p.returncode, p.stdout[-3000:], p.stderr[-3000:]))
+        if "test timed out" in p.stdout + p.stderr:
+            raise vf.NoVerdict("replay harness %s timed out after %ss (machine too loaded?)" % (tag, timeout))
+        raise vf.NoVerdict("replay harness failed (%s, rc=%d)\n%s\n%s" % (tag, p.returncode, p.stdout[:1500] + p.stdout[-1500:], p.stderr[-3000:]))
     res = json.load(open(out))
     if res["behaviours"] != len(behs):
         raise vf.NoVerdict("replay %s stopped early: %s of %s\n%s" % (tag, res["behaviours"], len(behs), p.stdout[-2000:]))
     return res
+
+
+def transitions(behs):
+    """distinct (expected contents before, call) pairs in the behaviours (input statistics, not a verdict)"""
+    seen = set()
+    for b in behs:
+        prev = "start"
+        for s in b:
+            seen.add(prev + "|" + json.dumps(s["call"], sort_keys=True))
+            prev = json.dumps(s["st"], sort_keys=True)
+    return len(seen)
+
+
+def replay(sd, binary, behs, tag, env=None, pool=None, parts=4):
+    """replays behaviours on the real services; large sets are split over several harness processes
+    (the AuthCache is process-global, so each process owns its behaviours from start to end)"""
+    if pool is None or len(behs) < 200:
+        res = replay_one(sd, binary, behs, tag, env)
+        res["transitions"] = transitions(behs)
+        return res
+    n = (len(behs) + parts - 1) // parts
+    chunks = [(i, behs[i:i + n]) for i in range(0, len(behs), n)]
+    futs = [(off, pool.submit(replay_one, sd, binary, ch, "%s_%d" % (tag, k), env)) for k, (off, ch) in enumerate(chunks)]
+    tot = {"behaviours": 0, "steps": 0, "mismatches": [], "key_counts": {}, "bad_behaviours": [], "act_counts": {},
+           "fresh_starts": 0, "elapsed_ms": 0}
+    for off, f in futs:
+        r = f.result()
+        for k in ("behaviours", "steps", "fresh_starts"):
+            tot[k] += r[k]
+        tot["elapsed_ms"] = max(tot["elapsed_ms"], r["elapsed_ms"])
+        for m in r.get("mismatches") or []:
+            m["behaviour"] += off
+            tot["mismatches"].append(m)
+        for k, v in (r.get("key_counts") or {}).items():
+            tot["key_counts"][k] = tot["key_counts"].get(k, 0) + v
+        for k, v in (r.get("act_counts") or {}).items():
+            tot["act_counts"][k] = tot["act_counts"].get(k, 0) + v
+        tot["bad_behaviours"] += [i + off for i in (r.get("bad_behaviours") or [])]
+    tot["transitions"] = transitions(behs)
+    return tot
 
 
 def keys_of(res):
@@ -89,7 +131,7 @@ def run():
             if thorough:
                 subs["Names"] = '{"admin", "bob", "Bob", "o\'neil"}'
             fs = pool.submit(generate, chk, sd, "UserStore_Gen.cfg", subs,
-                             "sim-" + policy, "num=%d" % (1000 if thorough else 200), 26 if thorough else 22, vf.SEED)
+                             "sim-" + policy, "num=%d" % (600 if thorough else 200), 26 if thorough else 22, vf.SEED)
             fx = pool.submit(generate, chk, sd, "UserStore_GenX.cfg", {"Policy": '"%s"' % policy, "Depth": "4" if thorough else "3"},
                              "exhaustive-" + policy)
             return fs, fx
@@ -123,7 +165,7 @@ def run():
             if policy not in fgen:
                 fgen[policy] = gen_stage(policy)
             sims, exh = fgen[policy][0].result(), fgen[policy][1].result()
-            res = replay(sd, binary, sims + exh, policy, {"VERIF_FRESH": "2"})
+            res = replay(sd, binary, sims + exh, policy, {"VERIF_FRESH": "2"}, pool=pool)
             results[policy] = (res, sims, exh)
             if not keys_of(res):
                 break      # the services conform to every behaviour under this rule
